@@ -218,6 +218,16 @@ def _es_case(case):
             fails.append(fail("time_budget_stop", "time budget expiring after evaluation %d of a %d-step script: %d refinement steps executed, reported %r, "
                               "fresh per-area component sum of the final structure %r" % (k, len(history), rt.steps_executed, rest, fresht), key))
             break
+    # every earlier stop of the same script: the user asks for a re-evaluation there (evaluate_final_combi), then continues the run;
+    # the value reported at the end of the continuation is again the combination of ITS component results
+    for k in range(len(history)):
+        rc = es.build(config, history, comps, n, resume=(k, "final_combi_then_continue"))
+        resc = np.array(rc.result[3], dtype=float)
+        freshc, magc, _ = _es_fresh_sum(rc.sa, rc.op, config)
+        if not _close(resc, freshc, magc):
+            fails.append(fail("result_after_reevaluation_and_continuation", "stop after %d of %d scripted steps, evaluate_final_combi() (= %r), continue: reported %r, "
+                              "fresh per-area component sum of the final structure %r" % (k, len(history), rc.final_combi, resc, freshc), key))
+            break
     ev = sa.evaluate_final_combi()
     if not _close(np.asarray(ev[0], dtype=float), res, mag):
         fails.append(fail("evaluate_final_combi_differs", "reported %r, evaluate_final_combi %r" % (res, np.asarray(ev[0])), key))
